@@ -263,7 +263,12 @@ func c14Execute(t *testing.T, sc *Scenario) *c14Run {
 			if ps.ViaGW {
 				src = gatewayMAC
 			}
-			sys.Inject(ethFrame(sensorMAC, src, 0x0800, pkt))
+			fr := ethFrame(sensorMAC, src, 0x0800, pkt)
+			if ps.Port%2 == 0 && len(fr) < 60 {
+				// (peers with an even port sit on a real wire: short frames are padded to the Ethernet minimum)
+				fr = append(fr, make([]byte, 60-len(fr))...)
+			}
+			sys.Inject(fr)
 		}
 		process := func() {
 			fr := sys.SentFrames()
